@@ -167,7 +167,7 @@ def run_check(mod, tier: str, seed: int, jobs: int = 0) -> int:
     prop_id = mod.ID
     specs = mod.plan(tier, seed)
     jobs = jobs or int(os.environ.get("OPV_JOBS", "0")) or min(16, os.cpu_count() or 4)
-    timeout = float(os.environ.get("OPV_SHARD_TIMEOUT", "0")) or (600 if tier == "quick" else 5400)
+    timeout = float(os.environ.get("OPV_SHARD_TIMEOUT", "0")) or (1500 if tier == "quick" else 7200)
     with ThreadPoolExecutor(max_workers=jobs) as ex:
         outs = list(ex.map(lambda s: _run_one_shard(prop_id, s, timeout), specs))
     timeouts = sum(1 for o in outs if o is None)
